@@ -34,20 +34,22 @@ def _select(beh, n, rnd):
 def run(ctx):
     rnd = random.Random(ctx.seed)
     # 1. the recovery model satisfies the contract (exhaustive, bounded)
-    for cfg in ctx.pick(["MC_K2q", "MC_K3q"], ["MC_K2", "MC_K3", "MC_K3all"]):
+    # (quick tier: the generation runs below check the same invariants on their smaller configurations)
+    for cfg in ctx.pick([], ["MC_K2", "MC_K3", "MC_K3all"]):
         r = ctx.tlc(SPEC, "MC_BlsRecovery", cfg=cfg, coverage=True, label=cfg, timeout=1500)
         ctx.require_coverage(r, ["ScanStop", "ScanSkip", "ScanTake", "ScanShort", "Combine", "Finish"], cfg)
     # 2. the positional reading shares[i] violates it in the model: the inputs on which the two readings differ exist
     hz = ctx.tlc(SPEC, "MC_BlsRecovery", cfg="MC_Hazard", label="MC_Hazard", expect=("violation",))
     ctx.extra["positional_reading_counterexample"] = hz.violated
     # 3. the collection loop model
-    for cfg in ("MC_Collect", "MC_CollectUnknown"):
+    for cfg in ctx.pick((), ("MC_Collect", "MC_CollectUnknown")):
         r = ctx.tlc(SPEC, "MC_ShareCollection", cfg=cfg, coverage=True, label=cfg)
         ctx.require_coverage(r, ["DoIgnore", "DoReject", "DoAccept", "OtherSubmitted", "Timeout", "Complete", "Submit"], cfg)
     # 4. every enumerated input slice on the real RecoverSignature / RecoverPublicKey
     cases = []
     for cfg in ctx.pick(["Gen_K2q", "Gen_K3q"], ["Gen_K1", "Gen_K2", "Gen_K3"]):
-        g = ctx.tlc(SPEC, "Gen_BlsRecovery", cfg=cfg, workers=1, label=cfg, dump_trace=False)
+        g = ctx.tlc(SPEC, "Gen_BlsRecovery", cfg=cfg, workers=1, label=cfg, dump_trace=False, coverage=True)
+        ctx.require_coverage(g, ["ScanStop", "ScanSkip", "ScanTake", "ScanShort", "Combine", "Finish"], cfg)
         got = ctx.read_emitted(g, "cases.ndjson")
         if len(got) < 100:
             ctx.broken("case generation %s produced only %d inputs" % (cfg, len(got)))
@@ -67,7 +69,8 @@ def run(ctx):
     # 5. every behaviour of the collection loop on the real SignAndSubmit + direct share validation
     beh = []
     for cfg in ctx.pick(("Gen_Collectq", "Gen_CollectUnknownq"), ("Gen_Collect", "Gen_CollectUnknown")):
-        g = ctx.tlc(SPEC, "Gen_ShareCollection", cfg=cfg, workers=1, label=cfg, dump_trace=False)
+        g = ctx.tlc(SPEC, "Gen_ShareCollection", cfg=cfg, workers=1, label=cfg, dump_trace=False, coverage=True)
+        ctx.require_coverage(g, ["GIgnoreM", "GRejectM", "GAcceptM", "GOther", "GTimeout", "GComplete", "GSubmit"], cfg)
         got = ctx.read_emitted(g, "collection.ndjson")
         if len(got) < 400:
             ctx.broken("behaviour generation %s produced only %d behaviours" % (cfg, len(got)))
